@@ -156,7 +156,11 @@ fn run_mixed(rec: &mut Recorder, w: &mut World, tier: &str, rng: &mut Rng) {
             // a rule of the two-place definition may carry an extra field (ignored by it) that happens to be a domain name
             else if rng.chance(1, 4) { rule.push(rng.pick(&doms).to_string()); rec.count("rule:longer-than-definition"); }
             let def = if first { "g" } else { "g2" };
-            let op = match rng.below(8) { 0..=4 => MOp::Add("g".into(), def.into(), rule), 5 | 6 => MOp::Rm("g".into(), def.into(), rule), _ => MOp::RmF("g".into(), def.into(), rng.below(2), vec![rule[0].clone()]) };
+            let op = match rng.below(10) { 0..=4 => MOp::Add("g".into(), def.into(), rule), 5 | 6 => MOp::Rm("g".into(), def.into(), rule),
+                // batch calls on either definition: what is stored of this definition right now (all removed in one call), or two additions
+                7 => { let cur = rec.exec(w, &format!("e.get\tg\t{}", def)); let mut rs = dec_lists(&cur); rs.truncate(1 + rng.below(3)); if rs.is_empty() { MOp::Rm("g".into(), def.into(), rule) } else { MOp::RmM("g".into(), def.into(), rs) } }
+                8 => { let mut r2 = sv(&[*rng.pick(&names), *rng.pick(&names)]); if first { r2.push(rng.pick(&doms).to_string()); } MOp::AddM("g".into(), def.into(), vec![rule, r2]) }
+                _ => MOp::RmF("g".into(), def.into(), rng.below(2), vec![rule[0].clone()]) };
             rec.exec(w, &op.line());
             descr.push(op.line().replace('\t', " "));
             if rng.chance(1, 8) { descr.push(format!("build_role_links -> {}", rec.exec(w, "e.build"))); }
